@@ -199,7 +199,6 @@ Definition within2 (tp : Z) (extra : Q) (p : Q) (enc scale : option (Q * Q)) : b
       (Qle_bool (lo - t) p && Qle_bool p (hi + t))%bool
   | _, _ => false
   end.
-Definition WPREC : positive := 160.
 
 (* wavelength and the (rho, irho) the refraction index is built from:
    index_of_refraction converts energy to wavelength first, xray_sld converts it back *)
@@ -236,8 +235,8 @@ Definition chk_cquery (E : aenv) (c : cache) (q : cquery) : bool :=
           | Some (lam, rho, irho) =>
               match py_Q (pnth r 0), py_Q (pnth r 1) with
               | Some pr, Some pi =>
-                  let dr := enclose_at WPREC (delta_expr (ECst lam) (ECst rho)) in
-                  let di := enclose_at WPREC (n_im_expr (ECst lam) (ECst irho)) in
+                  let dr := enclose (delta_expr (ECst lam) (ECst rho)) in
+                  let di := enclose (n_im_expr (ECst lam) (ECst irho)) in
                   (* 1 - Re n against delta: 2^-30 of delta plus the rounding of the subtraction from 1 *)
                   (within2 (-30) (D2Q 1 (-50)) (1 - pr) dr dr && within2 (-30) 0 pi di di)%bool
               | _, _ => false
@@ -254,10 +253,11 @@ Definition chk_cquery (E : aenv) (c : cache) (q : cquery) : bool :=
               match py_Q r with
               | Some p =>
                   let lamE := ECst lam in
-                  let e := refl_expr lamE (n_re_expr lamE (ECst rho)) (n_im_expr lamE (ECst irho))
-                                     (radians_expr (ECst dq)) (ECst sq) in
-                  (* R = |r|^2: the allowance is relative to |r| (see Proofs/C05Real.v) *)
-                  within2 (-30) 0 p (enclose_at WPREC e) (enclose_at WPREC (EMul (ez 2) (ESqrt e)))
+                  let ri := refl_staged PREC lamE (n_re_expr lamE (ECst rho)) (n_im_expr lamE (ECst irho))
+                                        (radians_expr (ECst dq)) (ECst sq) in
+                  (* R = |r|^2: the allowance is relative to |r| *)
+                  within2 (-30) 0 p (bounds_Q ri)
+                          (bounds_Q (I.mul PREC (I.fromZ PREC 2) (I.sqrt PREC ri)))
               | None => false
               end
           | None => (is_nan r || v_err r)%bool
@@ -274,7 +274,10 @@ Definition chk_f0 (f : cmf) (qv r : pyval) : bool :=
       | None => is_nan r
       | Some e =>
           match py_Q r with
-          | Some p => within (-30) p (enclose e) (enclose (f0_scale_expr f (ECst q)))
+          | Some p =>
+              (* magnitude of the terms: sum |a_i| + |c| (every exponential is at most 1) *)
+              let sc := Qsum (map Qabs (cm_a f)) + Qabs (cm_c f) in
+              within (-30) p (enclose_at 64 e) (Some (sc, sc))
           | None => false
           end
       end
